@@ -108,12 +108,40 @@ def audit(prop, extra_modules=()):
         if mod.startswith('OnlVerif.Props.'):
             thms = thms + [t for t in theorems_of(mod) if t not in thms]
     res['theorems'] = thms
-    ok, log = lake_build([f'OnlVerif.Props.{prop}'] + list(extra_modules) + ['driver'])
+    targets = [f'OnlVerif.Props.{prop}'] + list(extra_modules) + ['driver']
+    ok, log = lake_build(targets)
+    if not ok:
+        # A generated file this property does not own may be in the way (py2lean/scope.py): it was left ill-typed by the check
+        # that owns it, or hand-written code depending on it no longer compiles against the changed source.  That is the owner's
+        # obligation, not ours: fall back to the pinned translation of every such file and build again.
+        try:
+            from py2lean import scope
+            mods = [t if t != 'driver' else 'Driver' for t in targets]
+            restored = scope.restore_foreign(prop, mods)
+            if restored:
+                res['foreign_generated_restored_to_pinned'] = restored
+                ok2, log2 = lake_build(targets)
+                res['first_build_errors'] = [l for l in log.splitlines() if l.startswith('error:')][:6]
+                ok, log = ok2, log2
+        except ImportError:
+            pass
     res['build_ok'] = ok
     res['log'] = log[-6000:]
     # the `error:` lines of the whole log (file:line of the first broken declaration; the tail alone may hold only goal dumps)
     res['error_lines'] = [l for l in log.splitlines() if l.startswith('error:')][:12]
     if not ok:
+        # the obligation is broken and will be reported; if what broke is this property's own generated driver dependency, the
+        # harness still gets a driver (built with the pinned translation) to run its direct oracles against
+        try:
+            from py2lean import scope
+            okd, _ = lake_build(['driver'])
+            if not okd:
+                own = scope.restore_own_driver_deps(prop)
+                if own:
+                    okd, _ = lake_build(['driver'])
+                    res['own_driver_dependency_restored_to_pinned'] = {'stems': own, 'driver_built': okd}
+        except ImportError:
+            pass
         return res
     res['forbidden'] = forbidden_hits()
     tmp = os.path.join(LEAN, f'.audit_{prop}_{os.getpid()}.lean')
@@ -303,6 +331,9 @@ def run_check(prop, tier, seed, replay=None):
     cov['oracle_failures'] = len(oracle_failures)
     cov['known_findings_reported'] = sorted(reported_known)
     cov['proof_problems'] = proof_problems
+    for k in ('foreign_generated_restored_to_pinned', 'first_build_errors', 'own_driver_dependency_restored_to_pinned'):
+        if au.get(k):
+            cov[k] = au[k]
     cov['notes'] = notes
     ev = {
         'property_id': prop, 'tier': tier, 'seed': seed, 'level': 'proof', 'coverage': cov,
